@@ -36,7 +36,7 @@ FAMILIES = {
                    quick=[ex(2, NilOps="= TRUE"), ex(3, Ops="<- OpsW"), sim(1500, 6, design=False, NSlots="= 3")],
                    thorough=[ex(3), ex(4, Ops="<- OpsW"), sim(30000, 8, NSlots="= 3")]),
     "Transfer": fam("MC_Transfer",
-                    quick=[chain(3), sim(1500, 6, design=False, NSlots="= 2")],
+                    quick=[chain(4, hops=2), sim(1500, 6, design=False, NSlots="= 2")],
                     thorough=[chain(4, hops=2), ex(3), sim(30000, 8, NSlots="= 3")]),
     "Marks": fam("MC_Marks",
                  quick=[ex(2), ex(3, Ops="<- OpsPrefix", Shapes="<- ShapesPrefix"),
@@ -45,8 +45,10 @@ FAMILIES = {
                  thorough=[ex(3), ex(4, Ops="<- OpsPrefix", Shapes="<- ShapesPrefix"), ex(5, Ops="<- OpsMark"),
                            sim(30000, 8, NSlots="= 3")]),
     "Annot": fam("MC_Annot",
-                 quick=[ex(2), sim(1500, 6, design=False, NSlots="= 2")],
-                 thorough=[ex(4), sim(30000, 8, NSlots="= 2")]),
+                 quick=[chain(4, hops=2), sim(1500, 6, design=False, NSlots="= 2"),
+                        sim(1500, 10, design=False, NSlots="= 1", Ops="<- OpsHints", Shapes2="<- ShapesH")],
+                 thorough=[ex(4), chain(5, hops=2), sim(30000, 8, NSlots="= 2"),
+                           sim(20000, 12, design=False, NSlots="= 1", Ops="<- OpsHints", Shapes2="<- ShapesH")]),
     "Hidden": fam("MC_Hidden",
                   quick=[ex(2), sim(1500, 6, design=False, NSlots="= 2", NilOps="= TRUE")],
                   thorough=[ex(3), sim(30000, 8, NSlots="= 3", NilOps="= TRUE")]),
@@ -69,7 +71,7 @@ FAMILIES = {
                    tiers=dict(quick=dict(runs=[dict(constants={"MaxD": "= 1", "NFuzz": "= 300"})]),
                               thorough=dict(runs=[dict(constants={"MaxD": "= 1", "NFuzz": "= 20000"})]))),
     "Unknown": fam("MC_Unknown",
-                   quick=[chain(3), sim(1000, 5, design=False, NSlots="= 2")],
+                   quick=[chain(4, hops=2), sim(1000, 5, design=False, NSlots="= 2")],
                    thorough=[chain(4, hops=2), sim(20000, 7, NSlots="= 3")]),
 }
 
@@ -105,10 +107,12 @@ PROPS = {
                  "HandleAsAssertionFailure", "NewAssertionErrorWithWrappedErrf", "WithSecondaryError",
                  "CombineErrors", "Mark", "Newf", "Wrapf"]),
     "C08": prop(["Marks"], GEN + "at least two error values to compare", None),
+    "C09": prop(["Format"], GEN + "a value formatted with the verb table and %+v (all do)", None),
     "C10": prop(["Compose"], GEN + "at least one constructor call (all do)", None),
     "C11": prop(dict(quick=["Annot"], thorough=["Transfer", "Annot"]), GEN + "an annotation and a hop between knowing processes", ["Hop"]),
     "C12": prop(["Taint"], GEN + "a string that entered through a safe channel (its own searchable word)", None),
     "C13": prop(["Multi"], GEN + "a multi-cause node", ["Join", "JoinPkg", "GoJoin", "GoWrap2"]),
+    "C15": prop(["Format"], GEN + "a value for which a Sentry report is built (all do)", None),
     "C19": prop(["Annot"], GEN + "a hint, detail, link, key or tag annotation",
                 ["WithHint", "WithDetail", "WithTelemetry", "WithIssueLink", "WithContextTags",
                  "WithAssertionFailure", "Unimplemented", "AssertionFailedf", "HandleAsAssertionFailure"]),
@@ -150,6 +154,11 @@ CLAIMS = {
                  "recorded values must equal it", "DESIGN 8 C07"),
     "C08": claim("IsImpl (transcription) = IsSpec (declarative equivalence) checked by TLC on every reachable state; "
                  "recorded Is/IsAny results of the real code must equal IsSpec", "DESIGN 8 C08"),
+    "C09": claim("for every generated value (local and decoded): ~400 verb/flag/width/precision specifications rendered "
+                 "directly and through Formattable and compared with fmt's rendering of the Error() string (relation between "
+                 "two recorded renderings, computed by the harness, judged by the trace specification); the structure of %+v "
+                 "(entries, order, indentation, Error types line, each wrapper's own detail) against the Format module of the "
+                 "specification", "DESIGN 8 C09"),
     "C10": claim("compositional Text model per catalogue row, nil rules as part of Build; recorded text at every node "
                  "and nil-ness must equal the model", "DESIGN 8 C10"),
     "C11": claim("accessor and per-layer safe-detail observations before and after each hop between knowing processes "
@@ -159,6 +168,9 @@ CLAIMS = {
                  "after hops between knowing processes", "DESIGN 8 C12"),
     "C13": claim("multi-cause nodes in the model (UnwrapN, Is recursion, Join text); recorded shape/text/Is must equal "
                  "the model and survive hops", "DESIGN 8 C13"),
+    "C15": claim("abstract model of BuildSentryReport in the specification (composition lines, exceptions per stack-carrying "
+                 "layer outermost first with that layer's frames and the domain as module, error-types lines with type name "
+                 "and mark, source prefix, nil -> nothing); recorded report observations must equal it", "DESIGN 8 C15"),
     "C19": claim("independent model of hint/detail/link/key/tag aggregation; recorded accessor outputs must equal it",
                  "DESIGN 8 C19"),
 }
